@@ -1322,6 +1322,8 @@ pub mod vtunnel {
             all
         });
         core.verif_on_tunnel_request(Protocol::Http1, codec, sni.to_string(), sni_creds).await;
+        // the session is over (the codec is gone): the client need not linger any longer
+        client_task.abort();
         let _ = client_task.await;
         tokio::time::timeout(Duration::from_secs(5), reader).await.ok().and_then(|x| x.ok()).unwrap_or_default()
     }
@@ -1329,6 +1331,21 @@ pub mod vtunnel {
     /// One HTTP/2 session carrying `requests` as concurrent streams (sent in order, `gap_ms`
     /// apart); returns the response observed on each stream.
     pub async fn h2_session(core: &Core, sni: &str, sni_creds: Option<String>, requests: Vec<VReq>, gap_ms: u64, linger_ms: u64) -> Vec<VResp> {
+        h2_session_hold(core, sni, sni_creds, requests, gap_ms, linger_ms, 0).await
+    }
+
+    /// like [`h2_session`], but after the responses were collected the client keeps the
+    /// connection and its streams open for `hold_ms` (or until the server closes the connection)
+    #[allow(clippy::too_many_arguments)]
+    pub async fn h2_session_hold(
+        core: &Core,
+        sni: &str,
+        sni_creds: Option<String>,
+        requests: Vec<VReq>,
+        gap_ms: u64,
+        linger_ms: u64,
+        hold_ms: u64,
+    ) -> Vec<VResp> {
         let (client, server) = tokio::io::duplex(1 << 20);
         let codec = match http2_codec::Http2Codec::new(core.verif_settings(), Transport(server), log_utils::IdChain::empty()) {
             Ok(c) => Box::new(c),
@@ -1341,7 +1358,7 @@ pub mod vtunnel {
                 Ok(x) => x,
                 Err(_) => return out,
             };
-            let driver = tokio::spawn(async move {
+            let mut driver = tokio::spawn(async move {
                 let _ = conn.await;
             });
             let mut pending = vec![];
@@ -1371,6 +1388,7 @@ pub mod vtunnel {
                 }
                 tokio::time::sleep(Duration::from_millis(gap_ms)).await;
             }
+            let mut held = vec![];
             for (i, resp, body_tx) in pending {
                 match tokio::time::timeout(Duration::from_millis(linger_ms.max(1)), resp).await {
                     Ok(Ok(r)) => {
@@ -1386,8 +1404,15 @@ pub mod vtunnel {
                     }
                     _ => {}
                 }
-                drop(body_tx);
+                held.push(body_tx);
             }
+            if hold_ms > 0 {
+                tokio::select! {
+                    _ = tokio::time::sleep(Duration::from_millis(hold_ms)) => {}
+                    _ = &mut driver => {}
+                }
+            }
+            drop(held);
             drop(send);
             driver.abort();
             out
